@@ -3,6 +3,7 @@ pub mod bits;
 pub mod builder;
 pub mod lenders;
 pub mod ranksel;
+pub mod serde;
 pub mod sigstore;
 
 /// Dispatch a generic function over the world named `$name`.
@@ -15,6 +16,7 @@ macro_rules! with_world {
             "sigstore" => $f::<$crate::worlds::sigstore::SigstoreWorld>($($arg),*),
             "bits" => $f::<$crate::worlds::bits::BitsWorld>($($arg),*),
             "ranksel" => $f::<$crate::worlds::ranksel::RankselWorld>($($arg),*),
+            "serde" => $f::<$crate::worlds::serde::SerdeWorld>($($arg),*),
             "builder" => $f::<$crate::worlds::builder::BuilderWorld>($($arg),*),
             other => panic!("unknown world {other}"),
         }
